@@ -116,14 +116,15 @@ def run(ctx):
     items = []
     wide_fail, wide_n, perm_n = [], 0, 0
     for r, a in zip(hreqs, himpl):
-        if r.startswith("wide |") or r.startswith("perm |"):
+        if r.startswith("wide |") or r.startswith("perm |") or r.startswith("cperm |"):
             # wide registers / user-defined basis-permuting gates under a fulfilled condition: the only register value of
             # non-zero probability is computed classically by the harness
             wide_n += r.startswith("wide |")
-            perm_n += r.startswith("perm |")
+            perm_n += r.startswith("perm |") or r.startswith("cperm |")
             if a != "same":
                 wide_fail.append({"req": r, "impl": a, "why": "a register value of probability zero occurred %s: " % (
-                    "on a wide register" if r.startswith("wide |") else "with a user-defined (matrix-only) increment gate applied under a fulfilled classical condition") + a[:200], "class": "not-born"})
+                    "on a wide register" if r.startswith("wide |") else "with Clifford Composite/Loop gates (sub-gates in every operand order) on basis states" if r.startswith("cperm |")
+                    else "with a user-defined (matrix-only) increment gate applied under a fulfilled classical condition") + a[:200], "class": "not-born"})
             continue
         tag = None
         if r.startswith("w:"):
